@@ -27,7 +27,8 @@ def cfg(invariants, spec="Spec", constants=None, extra=""):
 def validate(ctx: Ctx, module: str, rows: list, *, invariants, files: dict | None = None,
              name: str | None = None, tag=lambda r: "", describe=lambda r: json.dumps(r)[:400],
              expect_rows_ok="RowsOK", timeout=3600, env=None, java_opts="-Xss64m -Xmx24g",
-             count_traces=True, workers=None, constants=None) -> bool:
+             count_traces=True, workers=None, constants=None,
+             result_keys=("r",)) -> bool:
     """Validate `rows` with spec module `module` (state variable i = row index).
 
     files: extra ndjson inputs {ENVNAME: list-of-items}.  Returns True iff TLC accepted all rows.
@@ -35,6 +36,16 @@ def validate(ctx: Ctx, module: str, rows: list, *, invariants, files: dict | Non
     rejection prints KNOWN-FINDING instead of VIOLATION.
     """
     name = name or module
+    # Type-uniform rows: a result that is an exception (or any non-value) is moved to the `exc`
+    # field, which every table spec tests BEFORE it touches the result (TLC cannot compare a
+    # string with a tuple), so an unexpected exception is a rejected row, not a TLC error.
+    for r in rows:
+        exc = ""
+        for key in result_keys:
+            if isinstance(r.get(key), str):
+                exc = exc or (r[key] if r[key].startswith("EXC:") else "BADVALUE:" + r[key][:80])
+                r[key] = 0
+        r["exc"] = exc
     known_keys = [k["key"] for k in ctx.known if k["property"] == ctx.pid and k.get("status") == "known"]
     main_rows, kf_rows = [], []
     for r in rows:
